@@ -24,6 +24,7 @@ type HProxy struct {
 	Type      string   `json:"type"` // http | tcp
 	MaxFailed int      `json:"max_failed"`
 	Script    []string `json:"script"` // http: per probe ok|500|404|timeout|reset ; tcp: per second up|down
+	LateMs    int      `json:"late_ms,omitempty"` // the server answers the first registration only after this long: the verdict may change while the answer is outstanding
 }
 
 type HCase struct {
@@ -35,6 +36,7 @@ func genH(t *rapid.T) HCase {
 	n := rapid.IntRange(2, 4).Draw(t, "n")
 	for i := 0; i < n; i++ {
 		p := HProxy{Type: rapid.SampledFrom([]string{"http", "http", "tcp"}).Draw(t, fmt.Sprintf("p%d/type", i)), MaxFailed: rapid.IntRange(1, 4).Draw(t, fmt.Sprintf("p%d/mf", i))}
+		p.LateMs = rapid.SampledFrom([]int{0, 0, 1500, 2600}).Draw(t, fmt.Sprintf("p%d/late", i))
 		k := rapid.IntRange(5, 9).Draw(t, fmt.Sprintf("p%d/len", i))
 		for j := 0; j < k; j++ {
 			if p.Type == "http" {
@@ -66,6 +68,13 @@ func runH(c HCase) error {
 		return fx.Inconclusive("%v", err)
 	}
 	defer ss.Close()
+	ss.Reply = func(name string, attempt int, _ *msg.NewProxy) (string, time.Duration) {
+		var idx int
+		if _, e := fmt.Sscanf(name, "h%d", &idx); e == nil && idx < len(c.Proxies) && attempt == 1 && c.Proxies[idx].LateMs > 0 {
+			return "late", time.Duration(c.Proxies[idx].LateMs) * time.Millisecond
+		}
+		return "ok", 0
+	}
 	var mu sync.Mutex
 	probes := make([][]probe, len(c.Proxies))
 	type tcpWin struct {
@@ -408,7 +417,7 @@ func TestHealthGating(t *testing.T) {
 		fx.SkipSubcheck("health_gating", "needs the timing setter hook")
 		return
 	}
-	fx.Run(t, fx.Spec[HCase]{Prop: "C19", Name: "health_gating", Quick: 16, Thorough: 400, Gen: genH, Run: runH, Class: classH, ShrinkTime: "60s"})
+	fx.Run(t, fx.Spec[HCase]{Prop: "C19", Name: "health_gating", Journal: true, Quick: 16, Thorough: 400, Gen: genH, Run: runH, Class: classH, ShrinkTime: "60s"})
 }
 
 var _ = msg.TypeLogin
